@@ -22,6 +22,11 @@ unsafe impl OpCode for CreateSocket {
     }
 
     unsafe fn set_result(&mut self, _: &mut Self::Control, res: &io::Result<usize>, _: &Extra) {
+        // The blocking fallback has stored the socket it created itself; adopting
+        // the same descriptor again would close it.
+        if self.opened_fd.is_some() {
+            return;
+        }
         if let Ok(fd) = res {
             // SAFETY: fd is a valid fd returned from kernel
             let fd = unsafe { Socket2::from_raw_fd(*fd as _) };
@@ -106,6 +111,11 @@ unsafe impl<S: AsFd> OpCode for Accept<S> {
     }
 
     unsafe fn set_result(&mut self, _: &mut Self::Control, res: &io::Result<usize>, _: &Extra) {
+        // The blocking fallback has stored the socket it accepted itself; adopting
+        // the same descriptor again would close it.
+        if self.accepted_fd.is_some() {
+            return;
+        }
         if let Ok(fd) = res {
             // SAFETY: fd is a valid fd returned from kernel
             let fd = unsafe { Socket2::from_raw_fd(*fd as _) };
